@@ -54,6 +54,8 @@ POOL = [
     ("shared-exception", DOC_E, None, None, {("a", "a"): "raise_shared"}, 1, "scn"),
     ("shared-exception-other-field", DOC_E, None, None, {("color",): "raise_shared"}, 2, "scn"),
     ("enriching-its-own-library-error", DOC_E, None, None, {("color",): "raise_te_enriched"}, 1, "scn"),
+    ("shared-exceptions-inside-a-multipleexception", DOC_E, None, None, {("a", "a"): "raise_multi_shared"}, 1, "scn"),
+    ("shared-exceptions-inside-a-multipleexception-other-field", DOC_E, None, None, {("color",): "raise_multi_shared"}, 2, "scn"),
     # an abstract type spread inside a narrower abstract type (valid: the two overlap) next to a request whose runtime types lie
     # outside that overlap: validating one document must not change what the schema's abstract types admit for another
     ("abstract-spread-in-narrower-scope", "{ named { ... on Node { id } } }", None, None, {}, 1, "scn"),
